@@ -32,13 +32,26 @@ func (in *Interp) builtin(fn *ssa.Builtin, args []Value, caller *frame) Value {
 			return dst
 		}
 		n := len(dst.A)
+		if in.mon != nil {
+			for i := range add {
+				in.mon.read(&add[i])
+			}
+		}
 		// Go reuses the backing array when capacity allows
 		if n+len(add) <= cap(dst.A) {
 			out := dst.A[:n+len(add)]
 			for i, v := range add {
 				out[n+i] = copyVal(v)
+				if in.mon != nil {
+					in.mon.write(&out[n+i])
+				}
 			}
 			return Slice{A: out}
+		}
+		if in.mon != nil {
+			for i := 0; i < n; i++ {
+				in.mon.read(&dst.A[i])
+			}
 		}
 		newcap := cap(dst.A) * 2
 		if newcap < n+len(add) {
@@ -73,6 +86,10 @@ func (in *Interp) builtin(fn *ssa.Builtin, args []Value, caller *frame) Value {
 			tmp[i] = copyVal(src[i])
 		}
 		for i := 0; i < n; i++ {
+			if in.mon != nil {
+				in.mon.read(&src[i])
+				in.mon.write(&dst.A[i])
+			}
 			storeInto(&dst.A[i], tmp[i])
 		}
 		return mkInt(64, uint64(n))
@@ -110,6 +127,9 @@ func (in *Interp) builtin(fn *ssa.Builtin, args []Value, caller *frame) Value {
 		}
 		panic(fmt.Sprintf("cap: %T", args[0]))
 	case "delete":
+		if in.mon != nil && args[0].(*Map) != nil {
+			in.mon.write(args[0].(*Map))
+		}
 		in.mapDelete(args[0].(*Map), args[1])
 		return nil
 	case "clear":
@@ -121,7 +141,13 @@ func (in *Interp) builtin(fn *ssa.Builtin, args []Value, caller *frame) Value {
 			}
 		case Slice:
 			if len(x.A) > 0 {
-				panic(unsupported("clear(slice)"))
+				st, ok := fn.Type().(*types.Signature).Params().At(0).Type().Underlying().(*types.Slice)
+				if !ok {
+					panic(unsupported("clear(slice) of unknown element type"))
+				}
+				for i := range x.A {
+					storeInto(&x.A[i], zero(st.Elem()))
+				}
 			}
 		}
 		return nil
